@@ -31,9 +31,14 @@ def decision_names(info: str, node: str) -> bool:
 def exact_semantics_applies(program: list[dict], values: list) -> bool:
     """Every gate is closed by default, or runnable no later than its targets (all its inputs are run-time inputs)."""
     provided = {k for k, _ in values}
+    gated = {t for n in program[-1]["nodes"] if n["kind"] in ("route", "ifelse") for t in n.get("targets", [])}
     for n in program[-1]["nodes"]:
         if n["kind"] in ("route", "ifelse"):
             if n.get("defaultOpen", True) and not all(p[0] in provided for p in n["params"]):
+                return False
+            # an open-by-default gate that is ITSELF the target of a gate (or waits for a signal) starts later than its own targets can:
+            # the statement then allows them an early start
+            if n.get("defaultOpen", True) and (n["name"] in gated or n.get("waitFor")):
                 return False
     return True
 
